@@ -10,7 +10,7 @@ import hashlib
 
 from sa import callgraph
 from sa.astutil import (anorm, call_name, calls_in, dotted, norm, walk_no_nested, last_attr,
-                        names_in, fact_texts, facts_at, try_fold, enclosing_loops, is_inf,
+                        names_in, fact_texts, facts_at, try_fold, guards_of, stores_in, enclosing_loops, is_inf,
                         func_params, literal, FoldError, ancestors)
 from sa.consteval import eval_init, UNKNOWN
 from sa.loader import AnalysisError
@@ -115,6 +115,69 @@ def structure_keyed(node, fn):
     return False
 
 
+def _is_other_than(test, var):
+    """``var != A`` / ``var is not A`` (either side) for some A that is not var"""
+    if isinstance(test, ast.Compare) and len(test.ops) == 1 \
+            and isinstance(test.ops[0], (ast.NotEq, ast.IsNot)):
+        a, b = norm(test.left), norm(test.comparators[0])
+        return (a == var) != (b == var)
+    return False
+
+
+def _list_without_one(name, fn):
+    """If the local ``name`` holds one entry (the element or its position) for
+    every element of a bond list S that differs from one given atom, return
+    the expression S.  Two spellings: a comprehension with the single
+    condition ``x != A``, and an empty list filled by a loop over S (or
+    enumerate(S)) whose only append stands under the single fact ``x != A``."""
+    defs = [s for s in walk_no_nested(fn) if isinstance(s, (ast.Assign, ast.AnnAssign, ast.AugAssign))
+            and any(isinstance(t, ast.Name) and t.id == name
+                    for t in (s.targets if isinstance(s, ast.Assign) else [s.target]))]
+    if len(defs) != 1 or not isinstance(defs[0], (ast.Assign, ast.AnnAssign)) or defs[0].value is None:
+        return None
+    val = defs[0].value
+
+    def elem_of(target, it):
+        """(loop element variable, S) for `for x in S` / `for i, x in enumerate(S)`"""
+        if isinstance(it, ast.Call) and call_name(it) == 'enumerate' and len(it.args) == 1 \
+                and isinstance(target, ast.Tuple) and len(target.elts) == 2 \
+                and isinstance(target.elts[1], ast.Name):
+            return target.elts[1].id, it.args[0]
+        if isinstance(target, ast.Name) and not isinstance(it, ast.Call):
+            return target.id, it
+        return None, None
+    if isinstance(val, ast.ListComp) and len(val.generators) == 1 and len(val.generators[0].ifs) == 1:
+        g = val.generators[0]
+        var, src = elem_of(g.target, g.iter)
+        if var and isinstance(src, ast.Attribute) and src.attr == 'bonded_atoms' \
+                and _is_other_than(g.ifs[0], var):
+            return src
+        return None
+    if isinstance(val, ast.List) and not val.elts:
+        other = [n for n in walk_no_nested(fn) if isinstance(n, ast.Name) and n.id == name
+                 and n is not (defs[0].targets[0] if isinstance(defs[0], ast.Assign) else defs[0].target)
+                 and not isinstance(n.ctx, ast.Load)]
+        apps = [c for c in calls_in(fn, nested=False) if last_attr(c) in ('append', 'extend', 'insert')
+                and norm(c.func.value) == name]
+        if other or len(apps) != 1 or last_attr(apps[0]) != 'append':
+            return None
+        # innermost loop around the append
+        inner = None
+        for a in ancestors(apps[0]):
+            if isinstance(a, (ast.For, ast.While)):
+                inner = a
+                break
+        if not isinstance(inner, ast.For):
+            return None
+        var, src = elem_of(inner.target, inner.iter)
+        if not var or not (isinstance(src, ast.Attribute) and src.attr == 'bonded_atoms'):
+            return None
+        facts = facts_at(apps[0], inner)
+        if len(facts) == 1 and facts[0][1] and _is_other_than(facts[0][0], var):
+            return src
+    return None
+
+
 def index_guarded(node, expr, k, fn, names):
     """Is ``expr[k]`` (k int) dominated by a guard on the same expression?"""
     e = norm(expr)
@@ -168,6 +231,24 @@ def index_guarded(node, expr, k, fn, names):
         for t, p in facts:
             if p and t == "%s.element == 'H'" % owner:
                 return "lemma L2 (%s is a hydrogen: it has a parent)" % owner
+    # L1b: a bond list without one given atom.  Bond lists hold no atom twice
+    # (lemma C12.L1 bonds:no-duplicates), so the entries of S different from A
+    # number at least len(S) - 1: with k + 1 < len(S) the part has entry k.
+    if isinstance(expr, ast.Name):
+        src = _list_without_one(expr.id, fn)
+        if src is not None:
+            fcan = canon(fn)
+            want = fcan.text(src)
+            for fe, p in facts_at(node, fn):
+                if p and isinstance(fe, ast.Compare) and len(fe.ops) == 1 \
+                        and isinstance(fe.ops[0], (ast.Lt, ast.LtE)) \
+                        and isinstance(fe.comparators[0], ast.Call) \
+                        and call_name(fe.comparators[0]) == 'len' and fe.comparators[0].args \
+                        and fcan.text(fe.comparators[0].args[0]) == want:
+                    n = try_fold(fe.left)
+                    if n is not None and (n >= k + 1 if isinstance(fe.ops[0], ast.Lt) else n >= k + 2):
+                        return 'lemma L1b (%s is %s without one atom, and %s)' % (
+                            expr.id, norm(src), norm(fe))
     # try/except IndexError
     for anc in ancestors(node):
         if isinstance(anc, ast.Try) and any(
@@ -186,6 +267,28 @@ def run(ctx):
 
     # ------------------------------------------------------------------ lemmas
     common.check_bond_writers(ctx, 'C12.L1', prog)
+    # L1b: no atom is entered twice into a bond list: every append either stands
+    # under the fact that the atom is not in the list yet, or enters an atom
+    # that was created in the same function (and cannot be in any list)
+    n_app, dup = 0, []
+    for m2, q2, f2 in prog.all_funcs():
+        fresh = {norm(st.targets[0]) for st in walk_no_nested(f2) if isinstance(st, ast.Assign)
+                 and isinstance(st.targets[0], ast.Name) and isinstance(st.value, ast.Call)
+                 and call_name(st.value) in ('Atom', 'propka.atom.Atom')}
+        for c in calls_in(f2, nested=False):
+            if isinstance(c.func, ast.Attribute) and c.func.attr in ('append', 'extend', 'insert') \
+                    and isinstance(c.func.value, ast.Attribute) and c.func.value.attr == 'bonded_atoms':
+                n_app += 1
+                lst, arg = norm(c.func.value), (norm(c.args[0]) if c.args else '?')
+                owner = norm(c.func.value.value)
+                guarded = any(p and t == '%s not in %s' % (arg, lst) for t, p in fact_texts(c, f2))
+                if not (c.func.attr == 'append' and (guarded or arg in fresh or owner in fresh)):
+                    dup.append((m2, q2, c))
+    ctx.ob('C12.L1', 'bonds:no-duplicates', not dup and n_app >= 3,
+           'an atom is appended to a bond list only under the fact that it is not in it yet, or '
+           'when one of the two atoms was created in the same function (%d appends; others: %s)'
+           % (n_app, ['%s.%s:%s' % (m.name, q, norm(c)) for m, q, c in dup]),
+           dup[0][0] if dup else prog.mod('bonds'), dup[0][2] if dup else prog.mod('bonds').tree)
     # L2: hydrogens in interaction lists come from get_bonded_elements('H') of a heavy atom
     l2_ok = True
     l2_sites = 0
@@ -374,12 +477,30 @@ def run(ctx):
                     return 'raise'
                 return 'raise ' + ((call_name(n.exc) if isinstance(n.exc, ast.Call) else None) or norm(n.exc))
             return 'assert ' + anorm(n.test, fn)[:70]
-        texts = [site_text(n) for n in walk_no_nested(fn) if isinstance(n, (ast.Raise, ast.Assert))]
+        # an assert that repeats one that dominates it (same test, nothing in the
+        # function stores what is tested) cannot fail where it stands: it is the
+        # first one that is classified
+        stored_here = {norm(t_) for _s, t_ in stores_in(fn)}
+        repeats = set()
+        for node in walk_no_nested(fn):
+            if isinstance(node, ast.Assert):
+                t0 = norm(node.test)
+                roots = {norm(x) for x in ast.walk(node.test) if isinstance(x, (ast.Name, ast.Attribute))}
+                if any(kind == 'assert' and pol and norm(te) == t0 for te, pol, kind in guards_of(node, fn)) \
+                        and not (roots & stored_here):
+                    repeats.add(node)
+        texts = [site_text(n) for n in walk_no_nested(fn) if isinstance(n, (ast.Raise, ast.Assert))
+                 and n not in repeats]
         ordinal = {}
         for node in walk_no_nested(fn):
             if not isinstance(node, (ast.Raise, ast.Assert)):
                 continue
             n_r += 1
+            if node in repeats:
+                ctx.ob('C12.R2', 'raise/assert:%s.%s:%s#repeat' % (fid[0], fid[1], site_text(node)), True,
+                       'the assert repeats one that dominates it; nothing in between stores what it '
+                       'tests', mod, node)
+                continue
             key = '%s.%s:%s' % (fid[0], fid[1], site_text(node))
             if texts.count(site_text(node)) > 1:
                 ordinal[key] = ordinal.get(key, 0) + 1
@@ -552,6 +673,35 @@ def run(ctx):
                 if isinstance(anc, ast.Try) and any(
                         h.type is None or 'KeyError' in norm(h.type) for h in anc.handlers):
                     ok, why = True, 'try/except KeyError'
+            if not ok and keyt == 'self.type' and 'EXPECTED_ATOMS' in canon(fn).text(node.value) \
+                    and isinstance(acid_t, dict) and isinstance(base_t, dict) and set(acid_t) == set(base_t):
+                # reached only when a method of the class answered False, and that
+                # method answers False only for a type that is a key of one of the
+                # two tables (which have the same keys)
+                def member_fact(e, p, fc):
+                    if not (p and isinstance(e, ast.Compare) and isinstance(e.ops[0], ast.In)
+                            and norm(e.left) == 'self.type'):
+                        return False
+                    t = fc.text(e.comparators[0])
+                    return 'EXPECTED_ATOMS_ACID_INTERACTIONS' in t or 'EXPECTED_ATOMS_BASE_INTERACTIONS' in t
+                for e, p in facts_at(node, fn):
+                    if p or not (isinstance(e, ast.Call) and isinstance(e.func, ast.Attribute)
+                                 and norm(e.func.value) == 'self' and not e.args and not e.keywords):
+                        continue
+                    cls_ = fid[1].rsplit('.', 1)[0] if '.' in fid[1] else None
+                    helper = mod.funcs.get('%s.%s' % (cls_, e.func.attr)) if cls_ else None
+                    if helper is None:
+                        continue
+                    hcan = canon(helper)
+                    rets = [r for r in walk_no_nested(helper) if isinstance(r, ast.Return)]
+                    falsy = [r for r in rets if not (isinstance(r.value, ast.Constant) and r.value.value is True)]
+                    if rets and falsy and all(
+                            isinstance(r.value, ast.Constant) and r.value.value is False
+                            and any(member_fact(e2, p2, hcan) for e2, p2 in facts_at(r, helper))
+                            for r in falsy) and isinstance(helper.body[-1], ast.Return):
+                        ok, why = True, ('reached only when self.%s() is False, which it is only for a type '
+                                         'that is a key of one table, and both tables have the same keys'
+                                         % e.func.attr)
             if not ok and tbl.startswith('EXPECTED_ATOMS') and keyt == 'self.type':
                 # reached only under `not <flag>`; the flag is cleared only for a
                 # type that is a key of one of the two tables
